@@ -355,6 +355,19 @@ def check_linear_inverse(c):
         return (f"C07:{c['spec']['cls']}:inverse:{c['when']}:kind={c['kind']}:link={c['link']}",
                 f"{type(t).__name__}.inverse(link={c['link']}, update_buffers={c['ub']}) does not invert "
                 f"({c['when']} in-place change): max |T^-1(T(x)) - x|, |T(T^-1(x)) - x| = {e:.3g}")
+    # the inverse of the inverse (same link mode at both levels): it inverts the inverse and is the original map again
+    try:
+        with torch.no_grad():
+            inv2 = inv.inv if c["api"] == "inv" else inv.inverse(link=c["link"], update_buffers=c["ub"])
+    except (NotImplementedError, TypeError):
+        return None
+    e2 = _roundtrip(inv, inv2, x)
+    with torch.no_grad():
+        e3 = float((inv2(x) - t(x)).abs().max())
+    if not (max(e2, e3) <= LTOL * 10):
+        return (f"C07:{c['spec']['cls']}:inverse-of-inverse:kind={c['kind']}:link={c['link']}",
+                f"{type(t).__name__}: the inverse of the inverse (link={c['link']}, api={c['api']}) does not invert the inverse "
+                f"({e2:.3g}) / is not the original map ({e3:.3g})")
     return None
 
 
@@ -537,7 +550,7 @@ ORACLES = [
     Oracle("linear_inverse", gen_linear_inverse, check_linear_inverse,
            doc="7 linear classes, 5 named composites, random Sequentials, affine Generic x D x params kind {Parameter, tensor, "
                "callable} x link x update_buffers x {inverse(), .inv} x {before, after in-place change}: both compositions "
-               "return the input to float32 accuracy"),
+               "return the input to float32 accuracy; the inverse of the inverse inverts the inverse and is the original map"),
     Oracle("shared_params", gen_shared, check_shared,
            doc="state-machine clause by oracle only (theorem C07_shared_params is built with property C09): after data_() "
                "replacement of the forward parameters the LINKED inverse (buffer- or Parameter-held params) still inverts"),
